@@ -129,6 +129,11 @@ func (m *c06Model) check(r *Run, c *bridgeChecks, s *Step, o *Outcome) []Violati
 				vs = append(vs, viol("no-batch-before-height", "bridge-call-timeout-zero", "%s: outgoing bridge call %d stored with timeout 0", ch.Name, bc.Nonce))
 			}
 		}
+		// the observed external height is evidence: it can only be the height of a real event, so it never
+		// exceeds the height the external chain has actually reached
+		if post.ObsExtH > ch.Ext.Height && post.ObsExtH != pre.ObsExtH {
+			vs = append(vs, viol("timeout-proved", "observed-height-beyond-external-chain", "%s: observed external height moved %d -> %d but the external chain is at %d", ch.Name, pre.ObsExtH, post.ObsExtH, ch.Ext.Height))
+		}
 		vs = append(vs, m.neverBoth(r, c, ch)...)
 		r.State(fmt.Sprintf("%s:b%d/c%d/dh%d", ch.Name, min(len(post.Batches), 3), min(len(post.Calls), 3), bucket(int64(ch.Ext.Height)-int64(post.ObsExtH))))
 	}
